@@ -187,8 +187,8 @@ form('proto-call-ident', { ops: ['trim'] }, F => `String.prototype.trim.call(${F
 form('proto-call-args-spread', { ops: ['concat'] }, F => `String.prototype.concat.call(${F.loc()}, ${F.s()}, ...w.it${F.id()})`)
 form('proto-call-effect-this', { ops: ['concat'] }, F => `String.prototype.concat.call(${F.f()}, ${F.s()})`)
 form('proto-call-world-path', { ops: ['concat'] }, F => `w.X${F.id()}.prototype.concat.call(${F.loc()}, ${F.lit()})`)
-form('proto-call-computed-class-path', { ops: ['concat'], nodemand: true }, F => `w.o${F.id()}[w.k${F.id()}].prototype.concat.call(${F.loc()}, ${F.s()})`)
-form('proto-apply-computed-literal-class-path', { ops: ['trim'], nodemand: true }, F => `w.o${F.id()}['String'].prototype.trim.apply(${F.loc()}, [])`)
+form('proto-call-computed-class-path', { ops: ['concat'], nodemand: true }, F => `w.o${F.id()}[${F.loc("'X2'")}].prototype.concat.call(${F.loc()}, ${F.s()})`)
+form('proto-apply-computed-literal-class-path', { ops: ['trim'], nodemand: true }, F => `w.o${F.id()}['X1'].prototype.trim.apply(${F.loc()}, [])`)
 form('proto-call-private-class-path', { ops: ['substring'], nodemand: true }, F => `new (class { #K = String; m(s) { return this.#K.prototype.substring.call(s, 1) } })().m(${F.s()})`)
 form('proto-call-callresult-class-path', { ops: ['concat'], nodemand: true }, F => `w.fobj${F.id()}().X1.prototype.concat.call(${F.loc()}, ${F.s()})`)
 form('proto-call-paren-class-path', { ops: ['concat'], nodemand: true }, F => `(w.X${F.id()}).prototype.concat.call(${F.loc()}, ${F.s()})`)
